@@ -155,7 +155,17 @@ func Finish(res *Result, rr rt.Result) {
 	if rr.Outcome == rt.StepCap {
 		res.Inconclusive = "step cap reached"
 	}
+	if rr.Outcome == rt.Livelock {
+		res.Reach["kernel.livelock"]++
+	}
 }
+
+// NoProgressDefault is the livelock bound used by worlds whose tasks only
+// ever wait on bytes, messages and locks (no compute loops with yields).
+const NoProgressDefault = 1_000_000
+
+// Stuck reports whether the run ended without all tasks finishing.
+func Stuck(rr rt.Result) bool { return rr.Outcome == rt.Deadlock || rr.Outcome == rt.Livelock }
 
 // CrashDetail renders the panics of crashed tasks.
 func CrashDetail(rr rt.Result) string {
